@@ -23,6 +23,7 @@ import (
 //verif:stub (*os/exec.Cmd).String stubCmdString
 //verif:stub (*os/exec.Cmd).StdoutPipe stubStdoutPipe
 //verif:stub (*os/exec.Cmd).StderrPipe stubStderrPipe
+//verif:stub (*os/exec.Cmd).StdinPipe stubStdinPipe
 
 type childPipe struct {
 	ch        chan []byte // kernel pipe buffer: chunks written and not yet read
@@ -65,11 +66,83 @@ var (
 	c14OutPiped    bool
 	c14ErrPiped    bool
 	c14Copiers     []chan struct{}
+	c14Cat         bool
 )
 
 // StdoutPipe / StderrPipe: the read ends of the child's output pipes.
 func stubStdoutPipe(c *exec.Cmd) (io.ReadCloser, error) { c14OutPiped = true; return c14Out, nil }
 func stubStderrPipe(c *exec.Cmd) (io.ReadCloser, error) { c14ErrPiped = true; return c14Err, nil }
+
+// ---- the command's standard input ----
+//
+// The child's stdin is a pipe: what is written to it is what the child can read; closing it is
+// the child's end-of-input.  With cmd.Stdin set to a reader os/exec itself copies (io.Copy:
+// bytes returned together with an error are written before the error is looked at) in a
+// goroutine that Wait joins; with StdinPipe the program writes and closes it itself.
+type childStdin struct{ closed bool }
+
+var (
+	c14In      *childStdin
+	c14InGot   []byte
+	c14InEOF   chan struct{}
+	c14InPiped bool
+	c14Exited  bool
+)
+
+func (w *childStdin) Write(b []byte) (int, error) {
+	verifYield()
+	if w.closed || c14Exited {
+		return 0, errPipeClosed
+	}
+	c14InGot = append(c14InGot, b...)
+	return len(b), nil
+}
+func (w *childStdin) Close() error {
+	if !w.closed {
+		w.closed = true
+		close(c14InEOF)
+	}
+	return nil
+}
+func stubStdinPipe(c *exec.Cmd) (io.WriteCloser, error) { c14InPiped = true; return c14In, nil }
+
+func execCopyIn(src io.Reader, dst *childStdin, done chan struct{}) {
+	verifActor()
+	buf := make([]byte, 4)
+	for {
+		n, err := src.Read(buf)
+		if n > 0 {
+			if _, werr := dst.Write(buf[:n]); werr != nil {
+				break
+			}
+		}
+		if err != nil {
+			break
+		}
+	}
+	dst.Close()
+	close(done)
+}
+
+// inReader: the shell's input stream: chunks of symbolic bytes; the last chunk may come
+// together with the end-of-stream error (as HTTP bodies do) or before it.
+type inReader struct {
+	chunks  [][]byte
+	withEOF bool
+}
+
+func (r *inReader) Read(b []byte) (int, error) {
+	verifYield()
+	if len(r.chunks) == 0 {
+		return 0, io.EOF
+	}
+	n := copy(b, r.chunks[0])
+	r.chunks = r.chunks[1:]
+	if len(r.chunks) == 0 && r.withEOF {
+		return n, io.EOF
+	}
+	return n, nil
+}
 
 // execCopy is what os/exec does for a descriptor that was given an io.Writer instead of a pipe:
 // a goroutine of its own copies the child's output into the writer; Wait joins it.
@@ -100,8 +173,20 @@ func stubCmdStart(c *exec.Cmd) error {
 		c14Copiers = append(c14Copiers, d)
 		go execCopy(c.Stderr, c14Err, d)
 	}
+	if !c14InPiped {
+		if c.Stdin != nil {
+			d := make(chan struct{})
+			c14Copiers = append(c14Copiers, d)
+			go execCopyIn(c.Stdin, c14In, d)
+		} else {
+			c14In.Close() // the null device: immediate end-of-input
+		}
+	}
 	go func() {
 		verifActor()
+		if c14Cat {
+			<-c14InEOF // a filter: reads its input to the end, then writes and exits
+		}
 		for _, d := range c14OutData {
 			c14Out.ch <- d
 		}
@@ -110,6 +195,7 @@ func stubCmdStart(c *exec.Cmd) error {
 		}
 		close(c14Out.ch)
 		close(c14Err.ch)
+		c14Exited = true
 		close(c14ChildDone)
 	}()
 	return nil
@@ -160,7 +246,20 @@ func HarnessC14Relay() {
 	if failing {
 		c14ExitErr = exitError{}
 	}
-	c14OutPiped, c14ErrPiped = false, false
+	c14OutPiped, c14ErrPiped, c14InPiped = false, false, false
+	c14In, c14InGot, c14InEOF, c14Exited = &childStdin{}, nil, make(chan struct{}), false
+	ni := verifParam("ni")
+	c14Cat = verifParam("cat") == 1
+	in := &inReader{}
+	var wantIn []byte
+	for i := 0; i < ni; i++ {
+		b := nondetBytes(1, 0)
+		in.chunks = append(in.chunks, b)
+		wantIn = append(wantIn, b[0])
+	}
+	if ni > 0 {
+		in.withEOF = nondetBool()
+	}
 	sh, nerr := NewCmdShell(&exec.Cmd{})
 	verifAssert(nerr == nil && sh != nil, "C14.new-cmd-shell")
 	if sh == nil {
@@ -188,8 +287,18 @@ func HarnessC14Relay() {
 		}
 		close(consumed)
 	}()
+	if ni > 0 || verifParam("cat") == 1 {
+		sh.SetInput(in)
+	}
 	err := sh.Go(context.Background())
 	<-consumed
+	verifQuiesce()
+	if c14Cat {
+		// the command reads its input to the end: every byte must have reached it
+		verifAssert(string(c14InGot) == string(wantIn), "C14.input-reaches-stdin-unchanged")
+	} else {
+		verifAssert(len(c14InGot) <= len(wantIn) && string(c14InGot) == string(wantIn[:len(c14InGot)]), "C14.input-never-altered")
+	}
 	if verifCanary() {
 		wantOut = append(wantOut, 0x80)
 	}
